@@ -312,7 +312,7 @@ def main():
                 for fut in concurrent.futures.as_completed(futs):
                     r = fut.result()
                     print('%-10s %-48s %5d/%-5d %6.1fs %s' % (r['status'], r['fn'], r['discharged'], r['obligations'], r['time_s'], r['reason'] or ''))
-                    for f in r['failed']:
+                    for f in r['failed'][:6]:
                         print('     FAILED %s line %s %s | %s | %s' % (f['property'], f['line'], f['tags'], f['description'][:110], f['clause'] or ''))
                     if a.trace and r.get('trace'):
                         for t in r['trace']:
